@@ -4,6 +4,7 @@ import draincheck
 import wrcheck
 import loadcheck
 import compcheck
+import c13check
 
 CHECKS = {}
 META = {}
@@ -102,3 +103,14 @@ META["C17"] = {
 for e in ENGINES:
     if e["name"] == "component-replay":
         e["serves_properties"].append("C17")
+
+CHECKS["C13"] = c13check.run
+META["C13"] = {
+    "engine": "timer-wheel",
+    "text": "TimerWheel.tla (parametric geometry) model-checked for SweptWithinTick incl. deadlines before the wheel time; every call on the real wheel is recomputed with the real geometry (bucket of every timer, expired set) by TimerWheelTrace.tla; cache-level traces with TTLs over all five levels and large clock jumps must have no dead entry older than one tick after CleanUp; writes racing maintenance are forced through a stalling clock",
+    "design_ref": "DESIGN.md section 6 (C13)",
+    "note": "exhaustive only for the small geometry and 1-3 timers; real-geometry conformance on sampled call sequences (8 timers); deadlines up to 13 days in the wheel traces",
+    "technique": "TLA+ spec (TimerWheel.tla) model-checked with TLC + deterministic-fold trace validation of the real wheel (TimerWheelTrace.tla) and of the cache (CacheTrace.tla) + TLA+ judge of racing-write scenarios (SweepHist.tla)",
+}
+ENGINES.append({"name": "timer-wheel", "path": "tools/c13check.py", "serves_properties": ["C13"],
+                "kind_free_text": "TLC on spec/TimerWheel.tla; harness/expiration/verif_wheel_test.go; harness/otter/verif_sweep_test.go"})
